@@ -18,7 +18,8 @@ import subprocess
 import sys
 
 ROOT = os.path.dirname(os.path.dirname(os.path.abspath(__file__)))
-RUST = "/repo/rust"
+REPO_ROOT = os.path.realpath(os.environ.get("VERIF_REPO", "/repo"))
+RUST = os.path.join(REPO_ROOT, "rust")
 reason = ""
 
 
@@ -32,7 +33,7 @@ def _sources():
 def source_hash():
     h = hashlib.sha256()
     for f in _sources():
-        h.update(f.encode())
+        h.update(os.path.relpath(f, RUST).encode())
         with open(f, "rb") as fh:
             h.update(fh.read())
     return h.hexdigest()[:16]
@@ -49,7 +50,7 @@ def ensure(build=True, quiet=True):
     if os.path.exists(out):
         reason = "cached build of source hash " + sh
         return out
-    installed = glob.glob("/repo/src/pendulum/_pendulum*.so")
+    installed = glob.glob(os.path.join(REPO_ROOT, "src", "pendulum", "_pendulum*.so"))
     if installed:
         newest = max(os.path.getmtime(f) for f in srcs)
         if os.path.getmtime(installed[0]) >= newest:
